@@ -81,11 +81,20 @@ pub fn generate_block(
                         false => (quote! {}, m.name.to_string()),
                     };
                     let index = Literal::i64_unsuffixed(index);
+                    // The address type may be unsigned, so a negative stride can't be emitted as a negative literal.
+                    // Subtract the absolute value instead, just like the accessor methods do
+                    let stride_value = stride.to_string().parse::<i64>().unwrap();
+                    let address_calc = if stride_value.is_negative() {
+                        let stride = Literal::u64_unsuffixed(stride_value.unsigned_abs());
+                        quote! { #address - #index * #stride }
+                    } else {
+                        quote! { #address + #index * #stride }
+                    };
                     quote! {
                         #cfg_attr
                         let reg = self.#register_name(#index_param).#read_function?;
                         #cfg_attr
-                        callback(#address + #index * #stride, #register_display_name, reg.into());
+                        callback(#address_calc, #register_display_name, reg.into());
                     }
                 }))
                 }
